@@ -728,9 +728,26 @@ def run_case(case):
         )
         fref[i] = fgot[i]
         substituted = True
+    done = set()
+    for t in tendon_order_candidates:
+      ids = [i for i in range(mjm.nu) if int(mjm.actuator_trntype[i]) == 3 and int(mjm.actuator_trnid[i, 0]) == t]
+      if not any(well[i] and abs(fgot[i] - fref[i]) > cmp.VIOL_FACTOR * bound[i] for i in ids):
+        continue
+      rec.check()
+      pred = forces_clamp_then_tendon(mjm, st, ids, t)
+      if pred is not None and all(abs(fgot[i] - pred[k]) <= bound[i] + A * abs(pred[k]) for k, i in enumerate(ids)):
+        rec.viol(
+          "actuator_force:forcerange-applied-before-tendon-actfrcrange",
+          f"tendon {t} has actuatorfrcrange and a forcelimited actuator: MJWarp clamps forcerange first and scales by the tendon limit afterwards, MuJoCo does the reverse; actuators {ids} got {[float(fgot[i]) for i in ids]} mujoco {[float(fref[i]) for i in ids]} {ctx}",
+          tendon=t,
+        )
+        for i in ids:
+          fref[i] = fgot[i]
+          done.add(i)
+        substituted = True
     for i in user_gain:
       rec.check()
-      if well[i] and abs(fgot[i] - fref[i]) > cmp.VIOL_FACTOR * bound[i] and abs(fgot[i] - force_with_zero_gain(mjm, st, i)) <= bound[i] + A * abs(fgot[i]):
+      if i not in done and well[i] and abs(fgot[i] - fref[i]) > cmp.VIOL_FACTOR * bound[i] and abs(fgot[i] - force_with_zero_gain(mjm, st, i)) <= bound[i] + A * abs(fgot[i]):
         rec.viol(
           "actuator_force:gain-user-without-callback",
           f"gaintype user, no callback installed: MuJoCo uses gain 1 ({fref[i]:.6g}), MJWarp gain 0 ({fgot[i]:.6g}) actuator {i} {ctx}",
@@ -740,7 +757,7 @@ def run_case(case):
         substituted = True
     for i in user_early:
       rec.check()
-      if well[i] and abs(fgot[i] - fref[i]) > cmp.VIOL_FACTOR * bound[i]:
+      if i not in done and well[i] and abs(fgot[i] - fref[i]) > cmp.VIOL_FACTOR * bound[i]:
         rec.viol(
           "actuator_force:dyn-user-actearly-act-not-read",
           f"dyntype user + actearly: MuJoCo uses act[last] ({fref[i]:.6g}), MJWarp {fgot[i]:.6g} actuator {i} {ctx}",
@@ -759,21 +776,6 @@ def run_case(case):
           fref[i] = fgot[i]
         substituted = True
         rec.count("tendon_group_follows_classified_actuator")
-    for t in tendon_order_candidates:
-      ids = [i for i in range(mjm.nu) if int(mjm.actuator_trntype[i]) == 3 and int(mjm.actuator_trnid[i, 0]) == t]
-      if not any(well[i] and abs(fgot[i] - fref[i]) > cmp.VIOL_FACTOR * bound[i] for i in ids):
-        continue
-      rec.check()
-      pred = forces_clamp_then_tendon(mjm, st, ids, t)
-      if pred is not None and all(abs(fgot[i] - pred[k]) <= bound[i] + A * abs(pred[k]) for k, i in enumerate(ids)):
-        rec.viol(
-          "actuator_force:forcerange-applied-before-tendon-actfrcrange",
-          f"tendon {t} has actuatorfrcrange and a forcelimited actuator: MJWarp clamps forcerange first and scales by the tendon limit afterwards, MuJoCo does the reverse; actuators {ids} got {[float(fgot[i]) for i in ids]} mujoco {[float(fref[i]) for i in ids]} {ctx}",
-          tendon=t,
-        )
-        for i in ids:
-          fref[i] = fgot[i]
-        substituted = True
     if gated:
       judge_el(rec, "actuator_force", fgot, fref, A, nz, ctx=ctx)
       qref = qfrc_from_force(mjm, ref, fref) if substituted else ref["qfrc_actuator"]
